@@ -93,6 +93,8 @@ class Run:
             r = await self.w.client_op("search", self.sid, w)
             self.ev.append({"e": "search", "out": "ok" if r["out"] == "ok" else r["out"] + ":" + r.get("err", ""),
                             "correct": r["out"] == "ok" and r["result"] == exp})
+            if r["out"] != "ok":
+                break           # the trace is rejected at this event whatever follows; a search that gets no answer costs the echo cap
 
     async def probe(self):
         """raw handshake with the restarted server"""
@@ -238,11 +240,34 @@ class Run:
         return self.ev
 
 
-def _loop_run(coro_fn):
+def _loop_run(coro_fn, run=None, limit=None):
+    """run: the Run whose events are returned with a closing "noreturn" event when the recovery does not come back within
+    the limit (a hang is an observation for the trace spec to judge - "the interrupted step cannot be completed" - not a
+    failure of the machinery); the event says where the run was waiting."""
+    limit = limit or float(os.environ.get("VERIF_C13_LIMIT", "300"))
     loop = asyncio.new_event_loop()
     loop.set_exception_handler(lambda l, c: None)
     try:
-        return loop.run_until_complete(asyncio.wait_for(coro_fn(), 120))
+        task = loop.create_task(coro_fn())
+        loop.run_until_complete(asyncio.wait({task}, timeout=limit))
+        if task.done():
+            return task.result()
+        where = []
+        for t in asyncio.all_tasks(loop):
+            c = t.get_coro()
+            while c is not None:          # follow the chain of awaits down to where the task is suspended
+                fr = getattr(c, "cr_frame", None) or getattr(c, "gi_frame", None) or getattr(c, "ag_frame", None)
+                if fr is None:
+                    break
+                where.append("%s:%d %s" % (os.path.basename(fr.f_code.co_filename), fr.f_lineno, fr.f_code.co_name))
+                c = getattr(c, "cr_await", None) or getattr(c, "gi_yieldfrom", None) or getattr(c, "ag_await", None)
+            where.append("--")
+        task.cancel()
+        loop.run_until_complete(asyncio.wait({task}, timeout=5))
+        if run is None:
+            raise asyncio.TimeoutError("no return within %s s; waiting at %s" % (limit, where[:12]))
+        run.ev.append({"e": "noreturn", "where": where[:40]})
+        return run.ev
     finally:
         loop.close()
 
@@ -305,7 +330,7 @@ def execute(fx, plan, idx):
     fsx.install()
     try:
         r = Run(fx, d)
-        ev = _loop_run(lambda: r.crash_run(comp, h, k, when, res))
+        ev = _loop_run(lambda: r.crash_run(comp, h, k, when, res), r)
     finally:
         fsx.uninstall()
         fsx.clear()
@@ -320,7 +345,7 @@ def execute_real(fx, plan, k0, idx):
     os.makedirs(d, exist_ok=True)
     r = Run(fx, d)
     try:
-        ev = _loop_run(lambda: r.real_kill_run(comp, h, k - k0, when))
+        ev = _loop_run(lambda: r.real_kill_run(comp, h, k - k0, when), r)
     finally:
         shutil.rmtree(d, ignore_errors=True)
     return ev, getattr(r, "child_rc", None), getattr(r, "snap_after_crash", None)
@@ -333,7 +358,7 @@ def execute_snap(fx, plan, idx):
     fsx.install()
     try:
         r = Run(fx, d)
-        _loop_run(lambda: r.crash_run(comp, h, k, when, res))
+        _loop_run(lambda: r.crash_run(comp, h, k, when, res), r)
     finally:
         fsx.uninstall()
         fsx.clear()
